@@ -183,6 +183,16 @@ def main():
     ap.add_argument("--env")
     a = ap.parse_args()
     seed = int(os.environ.get("VERIF_SEED", "0"))
+    # global watchdog: a check that does not finish (e.g. the code under test loops forever) ends as a machinery failure
+    # instead of hanging whoever called it
+    import signal
+
+    def _expired(signum, frame):
+        print("MACHINERY-FAILURE: check %s (%s) did not finish within its time limit" % (a.pid, a.tier), flush=True)
+        os._exit(2)
+
+    signal.signal(signal.SIGALRM, _expired)
+    signal.alarm(int(os.environ.get("VERIF_TIME_LIMIT", "3600" if a.tier == "quick" else "28800")))
     try:
         if a.pid == "selftest":
             from harness import selftest
